@@ -26,11 +26,12 @@ LABELS = ['g1', 'g2', 'g3', 'g4']
 XLABELS = ['empty1', 'empty2', 'E.faecalis_V583', 'P.fa.lciparum.fasta_x']
 DIMS = dict(
 	channel=['positional', 'list', 'list-no-final-newline', 'list-crlf', 'list-blank-lines', 'sigfile'],
-	comp=['stored', 'opposite', 'multi-member-gzip'],
+	comp=['stored', 'opposite', 'multi-member-gzip', 'mixed'],      # mixed: alternately from the plain and the gzip directory (same label, different files)
 	cores=['unset', '1', '2', '16'],
 	progress=['--no-progress', '--progress'],
 	fmt=['csv', 'json', 'archive'],
 	strict=['no', 'yes'],
+	dest=['file', 'dash'],            # -o FILE, or '-o -' = standard output (warnings and progress belong on standard error); the default destination: t_stdout
 )
 
 
@@ -64,7 +65,8 @@ def cases(tier):
 
 def plan(tier, seed):
 	nsh = 16 if tier == 'quick' else 64
-	return [('t_cli', dict(tier=tier, shard=s, nshards=nsh)) for s in range(nsh)] + [('t_chunks', dict()), ('t_labels', dict())]
+	return [('t_cli', dict(tier=tier, shard=s, nshards=nsh)) for s in range(nsh)] + [('t_chunks', dict()), ('t_labels', dict())] + \
+	       [('t_stdout', dict(shard=s, nshards=8, tier=tier)) for s in range(8)]
 
 
 def invoke(fx, d, batch, v, tag='out'):
@@ -72,15 +74,17 @@ def invoke(fx, d, batch, v, tag='out'):
 	out = os.path.join(d, f'{tag}.{v["fmt"]}')
 	if os.path.exists(out):
 		os.unlink(out)
-	args = ['-d', fx.dbdir, 'query', v['progress'], '-o', out, '-f', v['fmt']]
+	args = ['-d', fx.dbdir, 'query', v['progress'], '-f', v['fmt']] + ['-o', out if v.get('dest', 'file') == 'file' else '-']
 	if v['strict'] == 'yes':
 		args.append('--strict')
 	if v['cores'] != 'unset':
 		args += ['-c', v['cores']]
-	src = {'stored': (fx.q, 'q'), 'opposite': (fx.qgz, 'qalt'), 'multi-member-gzip': (fx.qmulti, 'qmulti')}[v['comp']]
+	src = {'stored': (fx.q, 'q'), 'opposite': (fx.qgz, 'qalt'), 'multi-member-gzip': (fx.qmulti, 'qmulti'), 'mixed': (fx.q, 'q')}[v['comp']]
 	if any(l in clifix.EXTRA_QUERIES for l in batch):
 		src = (dict(fx.q, **fx.qx), 'q')           # the extra genomes exist in their stored form only
 	paths = [src[0][l] for l in batch]
+	if v['comp'] == 'mixed':
+		paths = [(fx.q if i % 2 == 0 else fx.qgz)[l] for i, l in enumerate(batch)]
 	if v['channel'] == 'positional':
 		args += paths
 		exp_labels = [R.ref_label(p) for p in paths]
@@ -102,6 +106,9 @@ def invoke(fx, d, batch, v, tag='out'):
 		args += ['-s', sp]
 		exp_labels = ids
 	code, stdout, exc, err = fixtures.run_cli(args)
+	if v.get('dest', 'file') == 'dash' and code == 0:
+		with open(out, 'w', newline='') as f:
+			f.write(stdout)                       # everything the command wrote to standard output IS the result
 	return code, out, exp_labels, exc, stdout
 
 
@@ -179,6 +186,69 @@ def t_cli(tier, shard, nshards):
 				sh.count('non_positional_channel')
 			sh.outcome([v['fmt'], [x[0] for x in items]])
 	sh.sample(dict(batch=batch, config=v, labels=exp_labels))
+	return sh
+
+
+def t_stdout(shard, nshards, tier, only=None):
+	"""The default destination: no -o at all, 'python -m gambit' in a fresh process, standard output and standard error captured separately.
+	What arrives on standard output must parse and equal, item by item, the single-genome baselines; batches include repeated labels (the
+	same file twice, the same name from two directories), for which the command prints a warning."""
+	import subprocess
+	import sys
+	sh = Shard()
+	with fixtures.workdir('c08s') as d:
+		fx = clifix.build(os.path.join(d, 'fx'), params=['P0'])
+		default = {k: v[0] for k, v in DIMS.items()}
+		bl = [b for b in batches() if len(b) <= 2 or len(set(b)) < len(b) or tier != 'quick']
+		todo = []
+		for b in bl:
+			for fi, fmt in enumerate(DIMS['fmt']):
+				comp = 'mixed' if len(set(b)) < len(b) and not any(l in clifix.EXTRA_QUERIES for l in b) else 'stored'
+				todo.append((b, dict(default, fmt=fmt, comp=comp, progress=DIMS['progress'][(fi + len(b)) % 2], dest='default-stdout')))
+		base = {}
+		for i, (batch, v) in enumerate(todo):
+			if i % nshards != shard or (only is not None and (batch, v) != only):
+				continue
+			if v['comp'] == 'mixed':
+				paths = [(fx.q if j % 2 == 0 else fx.qgz)[l] for j, l in enumerate(batch)]
+			else:
+				paths = [dict(fx.q, **fx.qx)[l] for l in batch]
+			args = [sys.executable, '-m', 'gambit', '-d', fx.dbdir, 'query', v['progress'], '-f', v['fmt']] + paths
+			r = subprocess.run(args, capture_output=True, text=True, timeout=600)
+			sh.evals += 1
+			case = dict(batch=batch, config=v)
+			if r.returncode != 0:
+				sh.violation('query-failed', case, 'exit 0', dict(exit=r.returncode, err=r.stderr[-300:]))
+				continue
+			out = os.path.join(d, 'stdout.' + v['fmt'])
+			with open(out, 'w', newline='') as f:
+				f.write(r.stdout)
+			try:
+				items, top = parse(out, v['fmt'])
+			except Exception as e:
+				sh.violation('output-unparseable', case, 'parseable', dict(error=repr(e), stdout_starts=r.stdout[:200]))
+				continue
+			exp_labels = [R.ref_label(p) for p in paths]
+			if [x[0] for x in items] != exp_labels:
+				sh.violation('labels' if len(items) == len(batch) else 'row-count', case, exp_labels, [x[0] for x in items])
+				continue
+			bad = None
+			for j, l in enumerate(batch):
+				if (v['fmt'], l) not in base:
+					code, bout, _, exc, so = invoke(fx, d, [l], dict(default, fmt=v['fmt']), tag='base')
+					base[(v['fmt'], l)] = parse(bout, v['fmt'])[0][0][1] if code == 0 else ('FAILED', so[-200:])
+				if items[j][1] != base[(v['fmt'], l)]:
+					bad = (j, l)
+					break
+			if bad:
+				sh.violation('row-depends-on-context', dict(case, position=bad[0], genome=bad[1]), base[(v['fmt'], bad[1])], items[bad[0]][1])
+				continue
+			sh.nontrivial += 1
+			sh.count('default_stdout_runs')
+			if len(set(exp_labels)) < len(exp_labels):
+				sh.count('default_stdout_runs_with_duplicate_label_warning' if 'more than once' in r.stderr or 'uplicate' in r.stderr else 'default_stdout_runs_with_duplicate_labels_no_warning_seen')
+			sh.outcome(['stdout', v['fmt'], exp_labels])
+	sh.sample(dict(family='default-stdout', batches=len(bl)))
 	return sh
 
 
@@ -272,6 +342,11 @@ def replay(case, kind=None):
 		return [v for v in t_labels().violations if v['case'] == case]
 	if 'chunksize' in case['config']:
 		return [v for v in t_chunks().violations if v['case'] == case]
+	if case['config'].get('dest') == 'default-stdout':
+		vs = []
+		for s in range(8):
+			vs += t_stdout(s, 8, 'thorough', only=(case['batch'], case['config'])).violations
+		return vs[:1]
 	with fixtures.workdir('c08r') as d:
 		fx = clifix.build(os.path.join(d, 'fx'), params=['P0'])
 		v = case['config']
@@ -280,7 +355,11 @@ def replay(case, kind=None):
 		if code != 0:
 			sh.violation('query-failed', case, 'exit 0', dict(exit=code, exc=repr(exc)))
 			return sh.violations
-		items, top = parse(out, v['fmt'])
+		try:
+			items, top = parse(out, v['fmt'])
+		except Exception as e:
+			sh.violation('output-unparseable', case, 'parseable', repr(e))
+			return sh.violations
 		if len(items) != len(case['batch']) or [x[0] for x in items] != exp_labels:
 			sh.violation(kind or 'labels', case, exp_labels, [x[0] for x in items])
 			return sh.violations
